@@ -63,18 +63,24 @@ def gen_version(r):
     up = gen_component(r)
     while up.endswith('-'):
         up = up[:-1] or '1'
+    epoch = None
+    k = r.random()
+    if k < 0.33:
+        epoch = r.choice(['0', '1', '00', '2', '01', '10', '1', '0'])
+        if r.random() < 0.4:
+            # colons inside the upstream version: legal only together with an epoch, and then ordinary
+            # (non-letter) characters of the comparison
+            for _ in range(r.choice([1, 1, 2])):
+                pos = r.randint(1, len(up))
+                up = up[:pos] + ':' + up[pos:]
     s = up
     k = r.random()
     if k < 0.35:
-        rev = gen_component(r, revision=True)
-        s = s + '-' + rev
+        s = s + '-' + gen_component(r, revision=True)
     elif k < 0.45:
         s = s + '-0'
-    k = r.random()
-    if k < 0.30:
-        s = r.choice(['0', '1', '00', '2', '01', '10']) + ':' + s
-    elif k < 0.33 :
-        s = r.choice(['0', '1']) + ':' + s + r.choice([':1', ':a'])
+    if epoch is not None:
+        s = epoch + ':' + s
     return s
 
 
@@ -83,7 +89,8 @@ def build_pool(seed, n):
     r = random.Random('C03-pool/%d' % seed)
     pool = set(['0', '00', '0:0', '0-0', '1', '0:1', '1-0', '1.0', '1.00', '1.0-0', '0:1.0', '1.0~', '1.0~~',
                 '1.0~a', '1.0a', '1.0+', '1.0.', '1.0-', '1.a', '1a', '1A', '1z', '1+', '1.', '1~', '1-1', '1-~1',
-                '1-a', '1-1.', '1-1~', '1.0-1-1', '1-1-1', '2:1', '1:2', '10', '9', '010', '1.10', '1.9', '1.09'])
+                '1-a', '1-1.', '1-1~', '1.0-1-1', '1-1-1', '2:1', '1:2', '10', '9', '010', '1.10', '1.9', '1.09',
+                '1:1:2', '1:1a2', '1:1+2', '1:1.2', '1:1-2', '1:1~2', '01:1:', '1:1:', '1:1:a', '1:1::', '0:1:1-1'])
     pool = set(v for v in pool if dpkgver.classify(v) == 'accept')
     while len(pool) < n:
         v = gen_version(r)
